@@ -438,3 +438,207 @@ def call_scribble_call(make, run, same_objects=True, args_of=None):
             return (f'call, overwrite the result, call again with the SAME argument objects: the repeated call does not '
                     f'return the original result')
     return None
+
+
+# ----------------------------------------------------------------------------- f2-forms: input FORMS of TT-tensors / numbers / index and value arrays
+
+def tt_form(Y, form):
+    """The TT-tensor Y (list of float64 cores) in another input FORM; returns (Yform, Yimage), Yimage = fresh C-ordered float64
+    cores holding exactly the values that were passed (the float64 image - the reference of every check).  form: '+'-joined
+    tokens out of  'f32' (every core float32; the values are rounded to float32 first), 'mixed' (cores 0, 2, 4, ... float32, the
+    others float64), 'mixed1' (cores 1, 3, ... float32), 'i64' / 'i32' (integer dtype; cores must be integer-valued, else
+    ValueError), 'imixed' (even cores int64, odd ones float64; integer-valued cores), 'F' (Fortran order), 'V' (non-contiguous
+    views), 'ro' (read-only arrays), 'tuple' (the core list as tuple), '' / 'C' (unchanged)."""
+    toks = [t for t in str(form or '').split('+') if t and t != 'C']
+    out = [np.array(G, dtype=float) for G in Y]
+    for t in toks:
+        if t in ('f32', 'mixed', 'mixed1'):
+            out = [G.astype(np.float32) if (t == 'f32' or k % 2 == (1 if t == 'mixed1' else 0)) else G for k, G in enumerate(out)]
+        elif t in ('i64', 'i32', 'imixed'):
+            if not all(np.all(G == np.rint(G)) and np.all(np.abs(G) < 2 ** 31) for G in out):
+                raise ValueError('not integer valued')
+            out = [np.rint(G).astype(np.int32 if t == 'i32' else np.int64) if (t != 'imixed' or k % 2 == 0) else G
+                   for k, G in enumerate(out)]
+    image = [np.array(G, dtype=float, order='C') for G in out]
+    for t in toks:
+        if t == 'F':
+            out = [np.asfortranarray(G) for G in out]
+        elif t == 'V':
+            big = [np.full((2 * G.shape[0], 2 * G.shape[1] + 1, 2 * G.shape[2]), 3, dtype=G.dtype) for G in out]
+            for B, G in zip(big, out):
+                B[1::2, 1::2, ::2] = G
+            out = [B[1::2, 1::2, ::2] for B in big]
+        elif t not in ('f32', 'mixed', 'mixed1', 'i64', 'i32', 'imixed', 'ro', 'tuple'):
+            raise ValueError(form)
+    if 'ro' in toks:
+        out = [G.copy(order='K') if G.base is None else G for G in out]
+        for G in out:
+            G.flags.writeable = False
+    return (tuple(out) if 'tuple' in toks else out), image
+
+
+def num_form(x, form):
+    """The Python number x in another FORM with the same value: 'np64' (np.int64 / np.float64), 'np32' (np.int32 / np.float32 -
+    a float must be representable in float32, else ValueError), '0d' (0-d array), 'float' (int -> float, for arguments
+    documented as "(int, float)"), 'npfloat' (int -> np.float64), '' / 'py' (unchanged).  None and bool pass through."""
+    if x is None or isinstance(x, (bool, np.bool_)) or not form or form == 'py':
+        return x
+    isint = isinstance(x, (int, np.integer))
+    if form == 'np64':
+        return np.int64(x) if isint else np.float64(x)
+    if form == 'np32':
+        if isint:
+            return np.int32(x)
+        if float(np.float32(x)) != float(x):
+            raise ValueError(f'{x!r} is not a float32 value')
+        return np.float32(x)
+    if form == '0d':
+        return np.array(x)
+    if form == 'float':
+        return float(x) if isint else x
+    if form == 'npfloat':
+        return np.float64(x)
+    raise ValueError(form)
+
+
+def idx_form(I, form):
+    """The multi-index array I (2-D, integer, non-negative) in another FORM with the same entries: 'list' (nested lists),
+    'tuple' (tuple of tuples), 'i32' / 'i64' / 'u8' / 'i8' / 'u16' (dtype; ValueError if the values do not fit), 'F' (Fortran
+    order), 'V' (non-contiguous view), 'ro' (read-only); '+'-joined tokens are applied from left to right."""
+    out = np.array(I, dtype=np.int64)
+    for t in [t for t in str(form or '').split('+') if t]:
+        if t in ('list', 'tuple'):
+            rows = np.asarray(out).tolist()
+            return rows if t == 'list' else tuple(tuple(r) for r in rows)
+        if t in ('i32', 'i64', 'u8', 'i8', 'u16'):
+            dt = np.dtype({'i32': np.int32, 'i64': np.int64, 'u8': np.uint8, 'i8': np.int8, 'u16': np.uint16}[t])
+            if out.size and (out.min() < np.iinfo(dt).min or out.max() > np.iinfo(dt).max):
+                raise ValueError('values do not fit ' + t)
+            out = out.astype(dt)
+        elif t == 'F':
+            out = np.asfortranarray(out)
+        elif t == 'V':
+            big = np.full((2 * out.shape[0] + 1, 2 * out.shape[1]), 1, dtype=out.dtype)
+            big[1::2, ::2] = out
+            out = big[1::2, ::2]
+        elif t == 'ro':
+            out = out.copy(order='K') if out.base is None else out
+            out.flags.writeable = False
+        else:
+            raise ValueError(form)
+    return out
+
+
+def val_form(y, form):
+    """The value vector y in another FORM; returns (yform, yimage) with yimage the float64 image of what is passed: 'list' (Python
+    floats), 'f32' (rounded to float32), 'int' / 'intlist' (int64 array / list of Python ints; y must be integer-valued), 'V'
+    (non-contiguous view), 'ro' (read-only), '' (unchanged float64 array)."""
+    out = np.array(y, dtype=float)
+    for t in [t for t in str(form or '').split('+') if t]:
+        if t == 'f32':
+            out = out.astype(np.float32)
+        elif t in ('int', 'intlist'):
+            if not np.all(out == np.rint(out)):
+                raise ValueError('not integer valued')
+            out = np.rint(out).astype(np.int64)
+        elif t == 'V':
+            big = np.full(2 * len(out) + 1, 7, dtype=out.dtype)
+            big[1::2] = out
+            out = big[1::2]
+        elif t == 'ro':
+            out = out.copy() if out.base is None else out
+            out.flags.writeable = False
+        elif t != 'list':
+            raise ValueError(form)
+    image = np.array(out, dtype=float)
+    toks = str(form or '').split('+')
+    if 'list' in toks or 'intlist' in toks:
+        out = out.tolist()
+    return out, image
+
+
+def num_kwargs(kw, form, names):
+    """Copy of the keyword dictionary kw with the Python numbers under `names` converted by num_form(., form); a value that does
+    not fit the 32-bit form (large int, float that is no float32 value) is passed in the 64-bit form instead."""
+    out = dict(kw)
+    for key in names:
+        v = out.get(key)
+        if v is None or isinstance(v, (bool, np.ndarray, np.generic)) or not isinstance(v, (int, float)):
+            continue
+        try:
+            if form == 'np32' and isinstance(v, int) and not -2 ** 31 <= v < 2 ** 31:
+                raise ValueError
+            out[key] = num_form(v, form)
+        except ValueError:
+            out[key] = num_form(v, 'np64')
+    return out
+
+
+# ----------------------------------------------------------------------------- f1-forms: input forms of TT-tensors / numbers
+
+TT_FORMS1 = ('f32', 'i64', 'i32', 'mix_fi', 'mix_if', 'mix_f32a', 'mix_f32b', 'ro', 'ro_view', 'tuple', 'tuple_f32_ro')
+
+
+def tt_form1(Y, form):
+    """The TT-tensor Y (float64 cores) as the SAME tensor in another input form; raises ValueError if a value does not
+    survive the dtype (so the float64 image of the result is always Y itself).  'f32' float32 cores; 'i64' / 'i32' integer
+    dtypes; 'mix_fi' float64 core 0 and int64 at the odd positions, 'mix_if' the other way round; 'mix_f32a' / 'mix_f32b'
+    float32 at the even / odd positions; 'ro' read-only cores; 'ro_view' read-only non-contiguous views; 'tuple' a tuple of
+    the cores; 'tuple_f32_ro' all three at once."""
+    def conv(G, dt):
+        H = G.astype(dt)
+        if not np.array_equal(H.astype(float), G):
+            raise ValueError('values do not fit the dtype ' + str(np.dtype(dt)))
+        return H
+    if form in ('f32', 'i64', 'i32'):
+        return [conv(G, {'f32': np.float32, 'i64': np.int64, 'i32': np.int32}[form]) for G in Y]
+    if form in ('mix_fi', 'mix_if', 'mix_f32a', 'mix_f32b'):
+        dt = np.int64 if form in ('mix_fi', 'mix_if') else np.float32
+        par = 1 if form in ('mix_fi', 'mix_f32b') else 0
+        return [conv(G, dt) if k % 2 == par else G for k, G in enumerate(Y)]
+    if form in ('ro', 'ro_view', 'tuple_f32_ro'):
+        Z = []
+        for G in Y:
+            if form == 'ro_view':
+                big = np.zeros((2 * G.shape[0], 2 * G.shape[1], 2 * G.shape[2]))
+                big[1::2, ::2, 1::2] = G
+                H = big[1::2, ::2, 1::2]
+            else:
+                H = G.copy() if form == 'ro' else conv(G, np.float32)
+            H.flags.writeable = False
+            Z.append(H)
+        return tuple(Z) if form == 'tuple_f32_ro' else Z
+    if form == 'tuple':
+        return tuple(Y)
+    raise ValueError(form)
+
+
+def tt_form1_values(Y, form):
+    """Y (float64 cores, any values) with the values adjusted so that tt_form1(., form) can hold them: every core rounded to
+    float32 values for the float32 forms, the cores that get an integer dtype in 'mix_fi' / 'mix_if' rounded to integers
+    (rint(2 G)); unchanged for the other forms ('i64' / 'i32' need integer-valued cores from the start)."""
+    if form in ('f32', 'mix_f32a', 'mix_f32b', 'tuple_f32_ro'):
+        return [np.asarray(G, dtype=float).astype(np.float32).astype(float) for G in Y]
+    if form in ('mix_fi', 'mix_if'):
+        return [np.rint(2 * G) if k % 2 == (form == 'mix_fi') else np.asarray(G, dtype=float) for k, G in enumerate(Y)]
+    return list(Y)
+
+
+def tt_image1(Y):
+    """float64 image (a list of fresh C-ordered arrays) of a TT-tensor given in any form."""
+    return [np.array(G, dtype=float, order='C') for G in Y]
+
+
+def num_form1(v, form):
+    """The number v in another form: None / 'py' as it is, 'f64' numpy.float64, 'f32' numpy.float32 (value rounded!),
+    'i64' / 'i32' numpy integers (integral v only), 'a0' 0-d float64 array, 'a0i' 0-d int64 array, 'pyfloat' float(v).
+    The float64 image of the result is float(result)."""
+    if form in (None, 'py'):
+        return v
+    if form == 'pyfloat':
+        return float(v)
+    if form in ('i64', 'i32', 'a0i'):
+        if float(v) != int(v):
+            raise ValueError('not integral')
+        return {'i64': np.int64, 'i32': np.int32, 'a0i': lambda x: np.array(x, dtype=np.int64)}[form](int(v))
+    return {'f64': np.float64, 'f32': np.float32, 'a0': lambda x: np.array(x, dtype=float)}[form](v)
